@@ -235,7 +235,9 @@ class ModelWorld(engine.World):
         self.cat_layers[layer.name] = layer
     self.kfl_state = {}
     for k, layer in enumerate(self.kfls):
-      st = {"sign_seen": None}
+      # The initializer orders the kernel w.r.t. the initial sign of scale.
+      st = {"sign_seen": (np.sign(layer.scale.numpy()).astype(np.int8)
+                          if fresh else None)}
       if ref is not None and k < len(ref.get("kfl", [])):
         ss = ref["kfl"][k]
         st["sign_seen"] = None if ss is None else np.array(ss, dtype=np.int8)
